@@ -31,7 +31,7 @@ static Json::Value genC09(Rng& rng) {
        "kill_by_swap_usage", "kill_by_swap_usage", "kill_by_pressure",
        "kill_by_io_cost", "kill_by_pg_scan"});
   int nsib = (int)rng.range(1, 8);
-  int ticks = (int)rng.range(2, 5);
+  int ticks = (int)rng.range(2, 7);
   Json::Value cgs(Json::arrayValue);
   Json::Value parent(Json::objectValue);
   parent["path"] = "w";
@@ -175,7 +175,10 @@ static Json::Value genC09(Rng& rng) {
   Json::Value cfg(Json::objectValue);
   cfg["rulesets"].append(rs);
   plan["config"] = cfg;
-  plan["scripts"]["pk0_det"] = "C";
+  // quiet ticks: the detector does not fire, only prerun keeps the temporal
+  // statistics of the siblings going
+  plan["scripts"]["pk0_det"] =
+      rng.pick<std::string>({"C", "C", "C", "SC", "SSC", "CSSC", "SSSC"});
   plan["io_devs"]["8:0"] = rng.pick<std::string>({"ssd", "hdd"});
   for (const char* k : {"hdd_coeffs", "ssd_coeffs"}) {
     Json::Value c(Json::arrayValue);
@@ -203,6 +206,22 @@ static Json::Value genC09(Rng& rng) {
       }
       ops.append(op);
     }
+  // a sibling that is empty for a tick or two (its memory stays charged) and
+  // gets processes again: its history must carry through
+  if (ticks >= 3 && rng.chance(0.3)) {
+    int i = (int)rng.below(nsib);
+    int t1 = (int)rng.range(1, ticks - 2);
+    int t2 = (int)rng.range(t1 + 1, ticks - 1);
+    Json::Value off(Json::objectValue), on(Json::objectValue);
+    off["t"] = t1;
+    on["t"] = t2;
+    off["op"] = on["op"] = "set";
+    off["cg"] = on["cg"] = "w/c" + std::to_string(i);
+    off["v"]["pids"] = Json::Value(Json::arrayValue);
+    on["v"]["pids"] = kids[i]["pids"];
+    ops.append(off);
+    ops.append(on);
+  }
   plan["ops"] = ops;
   plan["kill"]["default"]["e"] = 0;
   // killed processes stay (the ranking of the next tick is over the same set)
